@@ -710,7 +710,7 @@ def odd_label_cases(ctx, r):
             for name, call, want in (('count', lambda: v.count(bad), 0), ('in', lambda: bad in v, False), ('index', lambda: v.index(bad), 'ValueError'),
                                      ('_remove', lambda: v._remove(bad), 'ValueError'), ('_append', lambda: v._append(bad), 'TypeError'),
                                      ('_append(permissive)', lambda: v._append(bad, permissive=True), 'TypeError'),
-                                     ('_relabel(value)', lambda: v._relabel({(start or [0])[0]: bad}), 'ValueError' if start else None)):
+                                     ('_relabel(value)', lambda: v._relabel({(start or [0])[0]: bad}), 'ValueError')):
                 try:
                     got = call()
                 except Exception as e:  # noqa
